@@ -121,6 +121,67 @@ pub fn runs(seq: &[u8], w: usize, m: usize) -> Vec<(u64, usize, usize)> {
     out
 }
 
+/// the same function as `runs` for windows too wide for the definition-by-enumeration above: the minimum of each
+/// window is kept in a monotone queue of (start, canonical m-mer). `runs_agree_on_small_scope` holds the two against
+/// each other on every short input before the wide-window families rely on this one.
+pub fn runs_wide(seq: &[u8], w: usize, m: usize) -> Vec<(u64, usize, usize)> {
+    let mut out: Vec<(u64, usize, usize)> = Vec::new();
+    if m == 0 || w < m || seq.len() < w {
+        return out;
+    }
+    let n = seq.len();
+    // position of the last ambiguous byte at or before each index (usize::MAX: none yet)
+    let mut queue: std::collections::VecDeque<(usize, u128)> = std::collections::VecDeque::new();
+    let mut last_bad: Option<usize> = None;
+    let mut prev: Option<(usize, u128)> = None;
+    let mut mm_ready: usize = 0; // m-mers with start < mm_ready have been pushed
+    for i in 0..=(n - w) {
+        // ambiguous bytes entering the window [i, i + w)
+        let from = if i == 0 { 0 } else { i + w - 1 };
+        for (j, &b) in seq.iter().enumerate().take(i + w).skip(from) {
+            if class(b).is_none() {
+                last_bad = Some(j);
+            }
+        }
+        if let Some(b) = last_bad {
+            if b >= i {
+                prev = None;
+                continue;
+            }
+        }
+        // the window is clean: m-mers starting in [i, i + w - m]
+        if mm_ready < i || queue.is_empty() && mm_ready <= i {
+            queue.clear();
+            mm_ready = mm_ready.max(i);
+        }
+        while mm_ready <= i + w - m {
+            let j = mm_ready;
+            mm_ready += 1;
+            if let Some(f) = code_of(&seq[j..j + m]) {
+                let c = canon(f, m);
+                while queue.back().map_or(false, |&(_, v)| v > c) {
+                    queue.pop_back();
+                }
+                queue.push_back((j, c));
+            } else {
+                queue.clear(); // cannot happen inside a clean window; m-mers before a gap are never needed again
+            }
+        }
+        while queue.front().map_or(false, |&(j, _)| j < i) {
+            queue.pop_front();
+        }
+        let mini = queue.front().unwrap().1;
+        match prev {
+            Some((p, v)) if p + 1 == i && v == mini => {
+                out.last_mut().unwrap().2 = i + w;
+            }
+            _ => out.push((mini as u64, i, i + w)),
+        }
+        prev = Some((i, mini));
+    }
+    out
+}
+
 /// sorted list of canonical codes of size k
 pub fn canon_index(k: usize) -> Vec<u128> {
     (0..pow4(k)).filter(|&x| x <= rc_code(x, k)).collect()
